@@ -20,7 +20,8 @@ def jobs(mode: str, tier: str, steps, trees=(0, 1, 2, 3)) -> List[Dict]:
         if fn == "valuepool_step":
             for n in (1, 2, 3):
                 for seg in range(3):
-                    out.append({"fn": fn, "module": "vf.harness.val_harness", "globals": {"MODE": mode, "FIXN": n, "FIXSEG": seg}, "timeout": 900, "bound": STEP_BOUNDS[fn]})
+                    for c0 in (range(4) if n == 3 else (-1,)):
+                        out.append({"fn": fn, "module": "vf.harness.val_harness", "globals": {"MODE": mode, "FIXN": n, "FIXSEG": seg, "FIXC0": c0}, "timeout": 900 if n == 3 else 600, "bound": STEP_BOUNDS[fn]})
         elif fn == "freetext_step":
             for seg in range(3):
                 out.append({"fn": fn, "module": "vf.harness.val_harness", "globals": {"MODE": mode, "FIXSEG": seg}, "timeout": 900, "bound": STEP_BOUNDS[fn]})
@@ -29,9 +30,11 @@ def jobs(mode: str, tier: str, steps, trees=(0, 1, 2, 3)) -> List[Dict]:
                 out.append({"fn": fn, "module": "vf.harness.val_harness", "globals": {"MODE": mode, "FIXOWN": own}, "timeout": 900, "bound": STEP_BOUNDS[fn]})
         else:
             out.append({"fn": fn, "module": "vf.harness.val_harness", "globals": {"MODE": mode, "FIXOWN": -1, "FIXSEG": -1, "FIXN": -1}, "timeout": 600, "bound": STEP_BOUNDS[fn]})
-    ninp = 4 if tier == "thorough" else 2
+    ninp = 4 if tier == "thorough" else (1 if mode in ("C14", "C16") else 2)
+    if tier != "thorough" and mode == "C14":
+        trees = tuple(t for t in trees if t in (0, 1))
     for t in trees:
-        for s1 in range(3):
-            out.append({"fn": "tree_glue", "module": "vf.harness.val_glue", "globals": {"MODE": mode, "TREE": t, "NINP": ninp, "F901": -1 if tier == "thorough" else 1, "FIXS1": s1}, "timeout": 1500, "bound": f"whole AHB tree {t} with real expressions and real evaluation x states of 3 requirement keys x flag x {ninp} input sets"})
+        for s1 in range(9):
+            out.append({"fn": "tree_glue", "module": "vf.harness.val_glue", "globals": {"MODE": mode, "TREE": t, "NINP": ninp, "F901": -1 if tier == "thorough" else 1, "FIXS1": s1 // 3, "FIXS2": s1 % 3, "FLAG2_FREE": 1 if tier == "thorough" else 0}, "timeout": 1500, "bound": f"whole AHB tree {t} with real expressions and real evaluation x states of 3 requirement keys x flag x {ninp} input sets"})
     out.sort(key=lambda j: -j["timeout"])
     return out
